@@ -400,3 +400,10 @@ from .C02 import TaskGroupExit as _TaskGroupExit, ReEnterAsync as _ReEnterAsync 
 CONTRACTS = CONTRACTS + [ScopeFactory(), _variant(AsyncScope, "C08", ("C08-",)),
                          _variant(_TaskGroupExit, "C08", ("C02-P3:only-a-foreign",)),
                          _variant(_ReEnterAsync, "C08", ("C08-",))]
+
+
+def extra_contracts():
+    """"an error raised by any disposable's cleanup reaches the caller": the metrics exit runs in the innermost `finally` after
+    it and must not raise on its own account (C09's completion protocol, re-checked here)."""
+    from .C02 import _metrics_exit_never_raises
+    return _metrics_exit_never_raises("C08")
